@@ -140,7 +140,8 @@ def _step_opts(rng):
     if rng.random() < 0.5:
         o['step_ratio'] = float(rng.choice([1.6, 2.0, 3.0, 4.0, 1.2, 1.3, 1.7]))      # (1.2, 1.3, 1.7: not invariant under make_exact)
     if rng.random() < 0.5:
-        o['num_steps'] = int(rng.integers(8, 20))
+        o['num_steps'] = int(rng.integers(3, 20))       # (below what some of the alternative (n, order) need: raised per call, not for good)
+        o['num_steps_as'] = str(rng.choice(['int', 'int', 'np_int64', 'float', 'np_int32']))
     if rng.random() < 0.3:
         o['offset'] = int(rng.integers(-2, 3))
     return o
@@ -156,7 +157,12 @@ def build_step(nd, step):
     if step['kind'] == 'scalar':
         return step['value']
     cls = nd.MinStepGenerator if step['kind'] == 'min' else nd.MaxStepGenerator
-    return cls(**step['opts'])
+    opts = dict(step['opts'])
+    as_ = opts.pop('num_steps_as', 'int')
+    if 'num_steps' in opts and as_ != 'int':
+        # the same count handed over as a numpy integer or a float
+        opts['num_steps'] = {'np_int64': np.int64, 'np_int32': np.int32, 'float': float}[as_](opts['num_steps'])
+    return cls(**opts)
 
 
 def build(nd, cfg, step_obj='build', wrap=None, form=0):
